@@ -97,6 +97,7 @@ inductive Expr where
   | idxU (a i : Expr)                       -- `a[i]` of a `[]uint64` / `[N]uint32` (a uint32 is carried as a `u64` below 2^32)
   | idxK (m i : Expr)                       -- `path[i]` of a `...string` (a list of byte strings, carried as `Val.keys`)
   | dropK (m n : Expr)                      -- `path[n:]` of a `...string`
+  | idxI (a i : Expr)                       -- `a[i]` of a `[]int64` (here: the flattened iterators of an `Elements` slice)
   | nilK                                    -- an empty `[]string`
   | pushK (a e : Expr)                      -- `append(a, e)` for one string `e` (its bytes)
   deriving Repr, Inhabited
@@ -137,6 +138,9 @@ inductive Stmt where
   | setLenFrom (dst src : String) (e : Expr)
       -- `dst.tape.Tape = src.tape.Tape[:e]` for two views of one tape (Go checks `e` against the capacity of `src`'s
       -- slice; only the length is modelled, so this is stricter)
+  | mapSet (name : String) (k v : Expr)
+      -- `m[k] = v` for a `map[string]int` carried as two parallel lists `name.k` (keys in order of first insertion) and
+      -- `name.v`: an existing key's value is replaced, a new key is appended
   | oracle (target name : String)
       -- `target = name(…)` for a function known only by contract to return *some* uint64 (`runtime.memhash`, seeded
       -- per process): the answer is the next element of the variable `name.answers` (a `Val.u64s`)
@@ -558,6 +562,15 @@ def evalE (s : St) : Expr → EOut
        | o => o)
     | .val _ => .stuck "index operand"
     | o => o
+  | .idxI a i =>
+    match evalE s a with
+    | .val (.ints l) =>
+      (match evalE s i with
+       | .val (.int k) => if 0 ≤ k ∧ k < l.length then .val (.int (l.getD k.toNat 0)) else .panic
+       | .val _ => .stuck "index type"
+       | o => o)
+    | .val _ => .stuck "index operand"
+    | o => o
   | .nilK => .val (.keys [])
   | .pushK a e =>
     match evalE s a with
@@ -764,6 +777,21 @@ def exec1 (funs : String → Option FunDef) : (fuel : Nat) → Stmt → St → O
        | .val _ => .stuck "index type"
        | o => ofE o)
     | _ => .stuck "uint64 slice variable"
+  | fuel, .mapSet name k v, s =>
+    match s.env.get (name ++ ".k"), s.env.get (name ++ ".v") with
+    | some (.keys ks), some (.ints vs) =>
+      (match evalE s k with
+       | .val (.bytes kb) =>
+         (match evalE s v with
+          | .val (.int x) =>
+            (match ks.findIdx? (· == kb) with
+             | some j => .normal { s with env := s.env.set (name ++ ".v") (.ints (vs.set j x)) }
+             | none => .normal { s with env := (s.env.set (name ++ ".k") (.keys (ks ++ [kb]))).set (name ++ ".v") (.ints (vs ++ [x])) })
+          | .val _ => .stuck "map value type"
+          | o => ofE o)
+       | .val _ => .stuck "map key type"
+       | o => ofE o)
+    | _, _ => .stuck "map variable"
   | fuel, .oracle target name, s =>
     match s.env.get (name ++ ".answers") with
     | some (.u64s (r :: rest)) => .normal { s with env := (s.env.set (name ++ ".answers") (.u64s rest)).set target (.u64 r) }
